@@ -145,7 +145,10 @@ def _rand_world(rng, nsmp):
                 sets.append(0)
             else:
                 truth.append(rng.choice([[0, 1], [1, 0]]))
-                if x < 0.27:
+                if x < 0.17:
+                    mode.append("missing")
+                    sets.append(0)
+                elif x < 0.27:
                     mode.append("unphased")
                     sets.append(0)
                 else:
@@ -302,6 +305,8 @@ def _call_text(st, s, ps_value):
     t = st["truth"][s]
     if st["mode"][s] == "phased":
         return [f"{t[0]}|{t[1]}", str(ps_value)]
+    if st["mode"][s] == "missing":
+        return ["./.", "."]                     # no genotype call at all; reads still cover the site
     a = sorted(t)
     return [f"{a[0]}/{a[1]}", "."]
 
